@@ -968,11 +968,7 @@ def oracle(case, isteps):
                 if typ_par(case):
                     tag += ":parameter-change"
                 if coeffs_at(case, t) != coeffs_at(case, s0):
-                    out.append(("inverse:lagged:coefficients-changed-by-modifycvcs",
-                                "step %d: the component coefficients were changed by modifycvcs from %r to %r after step %d; the atoms experienced exactly "
-                                "the forces applied for the variable force %r, reported total force %r, expected %r (the forces of step %d are projected "
-                                "with the coefficients of step %d)" % (t, coeffs_at(case, s0), coeffs_at(case, t), s0, f, tfs[t], exp, s0, t)))
-                    continue
+                    tag += ":coefficients-changed"      # modifycvcs between the step reported and the report
                 out.append(("inverse:%s:%s:%s%s" % (kd, mode, tag, ":subtract" if sub_t else ""),
                             "step %d: the atoms experienced exactly the forces applied for the variable force %r; reported total force %r, "
                             "expected %r (applied force %s documented Jacobian term %r%s)" % (
